@@ -290,23 +290,27 @@ impl<'l, Data> LoopHandle<'l, Data> {
 
     /// Removes this source from the event loop.
     pub fn remove(&self, token: RegistrationToken) {
-        if let Ok(&mut SourceEntry {
-            token: entry_token,
-            ref mut source,
-        }) = self.inner.sources.borrow_mut().get_mut(token.inner)
-        {
-            if let Some(source) = source.take() {
-                trace!(source = entry_token.get_id(), "Removing source");
-                if let Err(e) = source.unregister(
-                    &mut self.inner.poll.borrow_mut(),
-                    &mut self
-                        .inner
-                        .sources_with_additional_lifecycle_events
-                        .borrow_mut(),
-                    token,
-                ) {
-                    warn!("Failed to unregister source from the polling system: {e:?}");
-                }
+        // Take the source out of its slot first and release the borrow of the source list before
+        // doing anything else with it: dropping the source (and its callback) can run arbitrary
+        // user code, notably the `Drop` of an `Async` adapter owned by it, which needs the list.
+        let removed = self
+            .inner
+            .sources
+            .borrow_mut()
+            .get_mut(token.inner)
+            .ok()
+            .and_then(|entry| entry.source.take());
+        if let Some(source) = removed {
+            trace!(source = token.inner.get_id(), "Removing source");
+            if let Err(e) = source.unregister(
+                &mut self.inner.poll.borrow_mut(),
+                &mut self
+                    .inner
+                    .sources_with_additional_lifecycle_events
+                    .borrow_mut(),
+                token,
+            ) {
+                warn!("Failed to unregister source from the polling system: {e:?}");
             }
         }
     }
